@@ -16,6 +16,7 @@ import (
 	"pgregory.net/rapid"
 
 	"verif/harness/lab/gwc"
+	"verif/harness/lab/idp"
 	"verif/harness/lab/sess"
 	"verif/harness/lab/tsgu"
 )
@@ -311,5 +312,58 @@ func TestC04_INP(t *testing.T) {
 			}
 			return checkC04(c, body, inp().Addr, nil)
 		})
+	})
+}
+
+// ---- BIN: issuance through the real login + /connect path of the binary ----
+
+type c04Bin struct {
+	VerifyMode string  `json:"verify_setting"` // true | false | default (key absent from the configuration)
+	Login      c04Side `json:"login_from"`
+	Case       c04Case `json:"case"` // Issue = the /connect request that downloads the file
+}
+
+func TestC04_BIN(t *testing.T) {
+	runProp(t, "C04_BIN", func(t *rapid.T) c04Bin {
+		c := c04Bin{VerifyMode: rapid.SampledFrom([]string{"true", "default", "default", "false"}).Draw(t, "verifyMode"), Case: genC04(t)}
+		c.Case.Verify = c.VerifyMode != "false"
+		c.Login = c.Case.Issue
+		if rapid.Bool().Draw(t, "loginElsewhere") {
+			c.Login = c04Side{IP: rapid.SampledFrom(c04IPs[:4]).Draw(t, "loginIP")}
+		}
+		if strings.Contains(c.Case.Issue.IP, ":") || strings.Contains(c.Login.IP, ":") || strings.Contains(c.Case.Use.IP, ":") {
+			c.Case.Issue.IP, c.Login.IP, c.Case.Use.IP = "127.0.0.1", "127.0.0.2", "127.0.0.1" // the binary listens on IPv4 and IPv6; keep the HTTP client simple
+		}
+		return c
+	}, func(c c04Bin) (bool, []string) {
+		nt, cl := classifyC04(c.Case)
+		return nt, append(cl, "verify-setting="+c.VerifyMode)
+	}, func(c c04Bin) *Violation {
+		w := W()
+		o := webOpts{Store: "cookie", HostSelection: "roundrobin", Hosts: []string{w.addr("A")}, VerifyIP: c.VerifyMode == "true", VerifyDefault: c.VerifyMode == "default"}
+		in, err := webInstance(o)
+		if err != nil {
+			return viol("bin/start", "%v", err)
+		}
+		b := newBrowser()
+		b.LocalIP, b.XFF = c.Login.IP, c.Login.XFF
+		if r, _, err := b.login(in, idp.CodeSpec{Sub: w.User, Username: w.User}); err != nil || r.Code != http.StatusFound {
+			return viol("c04/setup", "login failed: %v %d", err, r.Code)
+		}
+		b.LocalIP, b.XFF = c.Case.Issue.IP, c.Case.Issue.XFF
+		r, err := b.get(in, "/connect")
+		if err != nil || r.Code != 200 {
+			return viol("c04/setup", "download failed: %v %d %s", err, r.Code, shorten(r.Body))
+		}
+		m, _ := parseRDP(r.Body)
+		tok := rdpString(m, "gatewayaccesstoken")
+		if tok == "" {
+			return viol("c04/setup", "no token in the file")
+		}
+		if v := checkC04(c.Case, tok, in.Addr, nil); v != nil {
+			v.Msg = fmt.Sprintf("(real binary, verify setting %s, logged in from %+v) %s", c.VerifyMode, c.Login, v.Msg)
+			return v
+		}
+		return binHealthQuick(in)
 	})
 }
